@@ -352,7 +352,7 @@ def run_blif_case(ctx, fam, key, models, inss, merge, fuel=None, nontrivial=None
                            % (type(e).__name__, str(e)[:200]), dict(rep, expected=expected))
         return None
     if nontrivial is None:
-        nontrivial = any(len({tuple(row[k] for k in [j]) for row in expected}) > 1 for j in range(len(og)))
+        nontrivial = any(len({row[j] for row in expected}) > 1 for j in range(len(og)))
     ctx.case((fam, key, merge), nontrivial=nontrivial,
              sample={'family': fam, 'blif': text[:600], 'merge_io_vectors': merge, 'inputs': inss[:3],
                      'outputs': got[:3]} if sample else None)
@@ -903,7 +903,8 @@ def run_bench(ctx):
     except Exception as e:
         ctx.model_mismatch('bench_case could not be evaluated: %s' % str(e)[-800:], {})
         return
-    for p, (spec, model) in zip(pend, res):
+    for p, r in zip(pend, res):
+        spec, model = (r[0], r[1]), r[2]      # Coq prints ((a, b), c) as (a, b, c)
         if not spec[0] or [list(r) for r in spec[1]] != p['expected']:
             ctx.model_mismatch('Coq .bench semantics and the Python evaluator disagree',
                                dict(p['rep'], coq_spec=spec[1], python=p['expected']))
